@@ -287,3 +287,10 @@ CHECKS["C05"]["text"] = CHECKS["C05"]["text"].replace(
     "syscalls, protocol calls and the conditionals around them). Tie D: genuine-mode scenarios under a watchdog, plus injected "
     "Watchers fed one record that leaves a value pending (unmount, ignored, delete_self, move_self with the mark gone, overflow "
     "marker, unknown wd) x consumer behaviours.")
+
+CHECKS["C07"]["text"] = CHECKS["C07"]["text"] + (
+    " Linearizability is now a theorem over an interleaving model (C07.Lin): any number of goroutines, each call is invoked, runs its "
+    "critical section as ONE atomic step of the sequential model (Model/Inotify via C12.apply) and returns later; for every interleaving "
+    "the calls in the order of their sections are a sequential history that computes exactly the returned values and the final tables "
+    "(lin_legal) and respects real time (crit_after_inv, ret_has_crit_before, phase_machine). That sections are serial and contain every "
+    "table access is the protocol model's and the regenerated lock facts' business (above); the recorded-history search stays as the tie.")
